@@ -49,21 +49,54 @@ def vocab_lang(engine):
     return "(re.union %s)" % " ".join(alts)
 
 
+def _branch_values(toks):
+    """string values a branch can return: tag literals, and "" for String::new() / String::default() / "".to_string() / String::from("")."""
+    vals = []
+    for i, t in enumerate(toks):
+        if t.kind == "str":
+            v = slicer.unquote(t.text)
+            if v.startswith("<") or v == "":
+                vals.append(v)
+        elif t.text == "String" and i + 3 < len(toks) and toks[i + 1].text == ":" and toks[i + 2].text == ":" and toks[i + 3].text in ("new", "default"):
+            vals.append("")
+    return vals
+
+
 def extract_arms(fn_span):
-    """-> {command: (start_formats[list], end_tags[list])} from the match arms of get_string_<engine>."""
-    toks = [t for t in slicer.lex(fn_span.text) if t.kind != "comment"]
-    arms, cur = {}, None
+    """-> {command: (start_values, end_values, may_start_be_empty)} from the match arms of get_string_<engine>.  Each arm has the
+    shape `if is_start_tag { A } else { B }` (possibly inside a block); A yields the start-tag values, B the end-tag values."""
+    src = fn_span.source
+    toks = [t for t in src.tokens_in(fn_span.start, fn_span.end)]
+    heads = []
     for i, t in enumerate(toks):
         if t.text == "TTSCommand" and i + 5 < len(toks) and toks[i + 1].text == ":" and toks[i + 2].text == ":" \
                 and toks[i + 4].text == "=" and toks[i + 5].text == ">":
-            cur = toks[i + 3].text
-            arms[cur] = ([], [])
-        elif t.kind == "str" and cur:
-            v = slicer.unquote(t.text)
-            if v.startswith("</"):
-                arms[cur][1].append(v)
-            elif v.startswith("<"):
-                arms[cur][0].append(v)
+            heads.append((toks[i + 3].text, i + 6))
+    arms = {}
+    for n, (cmd, lo) in enumerate(heads):
+        hi = heads[n + 1][1] - 6 if n + 1 < len(heads) else len(toks)
+        arm = toks[lo:hi]
+        start_vals, end_vals = [], []
+        k = 0
+        found = False
+        while k < len(arm):
+            if arm[k].text == "if" and k + 2 < len(arm) and arm[k + 1].text == "is_start_tag" and arm[k + 2].text == "{":
+                close = src.match_close(arm[k + 2].start)
+                a = [t for t in arm if arm[k + 2].start < t.start < close]
+                rest = [t for t in arm if t.start > close]
+                start_vals += _branch_values(a)
+                if rest and rest[0].text == "else" and len(rest) > 1 and rest[1].text == "{":
+                    close2 = src.match_close(rest[1].start)
+                    end_vals += _branch_values([t for t in rest if rest[1].start < t.start < close2])
+                found = True
+                break
+            k += 1
+        if not found:
+            # no start/end distinction (e.g. `=> "".to_string()` or panic!): the same values for both
+            v = _branch_values(arm)
+            start_vals, end_vals = list(v), list(v)
+        arms[cmd] = ([v for v in start_vals if v.startswith("<") and not v.startswith("</")], [v for v in end_vals if v.startswith("</")],
+                     "" in start_vals, "" in end_vals or not [v for v in end_vals if v.startswith("</")])
     return arms
 
 
@@ -207,7 +240,7 @@ def build(run):
         # per command: start term (with holes) and end tag
         start_defs, end_defs, hole_decl = [], [], []
         for c in COMMANDS:
-            starts, ends = arms[c]
+            starts, ends, start_may_be_empty, end_may_be_empty = arms[c]
             if len(starts) > 1 or len(ends) > 1:
                 raise slicer.SliceError("arm %s of %s has several tag literals %r %r" % (c, engine, starts, ends))
             holes = ["h_%s_%d" % (c, k) for k in range(4)]
@@ -252,6 +285,49 @@ def build(run):
         q3 = pre + "(assert (distinct start \"\"))\n(assert (str.in_re start %s))\n(assert (not (str.in_re start %s)))" % (START_TAG, vocab_lang(engine))
         _loop(run, "Z-C13-a.%s.vocabulary" % engine.lower(), q3, get, witness_factory("vocab"),
               "for every command: element and attribute names belong to the engine's vocabulary")
+
+        # (4) a start tag that can be omitted (empty string for some value) needs an end tag that is omitted too, and vice versa
+        for c in COMMANDS:
+            starts, ends, start_may_be_empty, end_may_be_empty = arms[c]
+            lid = "Z-C13-a.%s.start_and_end_omitted_together.%s" % (engine.lower(), c)
+            selfclosing = bool(starts) and starts[0].rstrip().endswith("/>")
+            run.queries += 1
+            if not starts and not ends:
+                run.holds(lid, note="(no tags at all)")
+                continue
+            if selfclosing or c in ("Pause",):
+                run.holds(lid, note="(self-closing element, no end tag)")
+                continue
+            if start_may_be_empty and ends:
+                # candidate: find a value for which the real function returns an empty start tag but a non-empty end tag
+                hit = None
+                for val in (["0", "0.5", "1", "-1", "5", "100", "250", "-50"] if c in NUMERIC else ["x", ""]):
+                    st, en = real_tags(engine, c, val)
+                    if st == "" and en != "":
+                        hit = (val, st, en)
+                        break
+                if hit:
+                    api = None
+                    if c == "Pitch":
+                        res = mcprobe([("pref", "TTS " + engine), ("pref", "CapitalLetters_Pitch " + hit[0]), ("mathml", "<math><mi>A</mi><mo>+</mo><mi>b</mi></math>"), "speech"])
+                        ok, why = xml_ok(res[-1][1], engine) if res[-1][0] == "OK" else (True, "")
+                        api = {"speech": res[-1][1], "well_formed": ok, "why": why}
+                    run.nontrivial += 1
+                    run.violated(lid, "%s-%s-unbalanced" % (engine.lower(), c), "%s %s with value %s: start tag %r but end tag %r" % (engine, c, hit[0], hit[1], hit[2]),
+                                 {"engine": engine, "command": c, "value": hit[0], "api": api})
+                    continue
+                run.holds(lid, note="(start branch can return an empty string, but no sample value makes the real function do so with a non-empty end tag)")
+                continue
+            if ends and not starts:
+                run.nontrivial += 1
+                run.violated(lid, "%s-%s-unbalanced" % (engine.lower(), c), "%s %s has an end tag %r but no start tag" % (engine, c, ends), {})
+                continue
+            if starts and not ends:
+                run.nontrivial += 1
+                run.violated(lid, "%s-%s-unbalanced" % (engine.lower(), c), "%s %s has a start tag %r but no end tag" % (engine, c, starts), {})
+                continue
+            run.nontrivial += 1
+            run.holds(lid, note="(start %r / end %r always emitted together)" % (starts[0][:20], ends[0]))
 
     # ---- bookmarks -------------------------------------------------------------------------------
     rs = imp.find("fn replace_string")
